@@ -1,5 +1,5 @@
 (* C10 — HDLC receive path yields the same frames however the byte stream is chunked. *)
-From Dlms Require Import Base FrameModel HdlcConnModel HdlcScript HdlcChunkProofs HdlcStreamProofs.
+From Dlms Require Import Base AddrModel AddrSpec FrameModel FrameSpec HdlcConnModel HdlcScript HdlcChunkProofs HdlcStreamProofs TransportMeter StreamStd.
 
 (* For every byte string F the state's parser accepts as frame f (payload bytes arbitrary, so any
    density of 0x7E, also as control byte), every link state in which that frame may be received,
@@ -54,6 +54,22 @@ Theorem C10_any_chunking_stream : forall l items l' chunks, chain l items l' ->
          keys (concat (firstn j outs)) = Some (map key (deliverable (length (concat (firstn j chunks))) items)).
 Proof. exact chunking_stream. Qed.
 
+(* composed with C09: the stream consists of the STANDARD frames (reference layout) a meter sends for the
+   segments ps, numbered as the link prescribes, each sharing its opening flag with the previous closing
+   flag or not (flags: any list of booleans) - no acceptance hypothesis is left; any chunking *)
+Theorem C10_standard_stream_any_chunking : forall cl sv l ps flags chunks,
+  addr_ok cl -> addr_ok sv -> a_server cl = false -> a_server sv = true ->
+  l_state l = 2 -> client_ssn l < 8 -> client_rsn l < 8 -> Forall (segment_ok cl sv) ps ->
+  let items := set_shared (meter_items cl sv (client_ssn l) (client_rsn l) ps) flags in
+  Forall (fun ch => ch <> []) chunks -> concat chunks = stream items ->
+  exists outs, feedm {| c_link := l; c_buf := []; c_pos := 1 |} chunks
+                 = (outs, {| c_link := link_after l ps; c_buf := []; c_pos := 1 |})
+    /\ length outs = length chunks
+    /\ keys (concat outs) = Some (map key (meter_items cl sv (client_ssn l) (client_rsn l) ps))
+    /\ forall j, (j <= length chunks)%nat ->
+         keys (concat (firstn j outs)) = Some (map key (deliverable (length (concat (firstn j chunks))) items)).
+Proof. exact standard_stream_any_chunking. Qed.
+
 (* the polling loop the correspondence check runs on model and implementation (HdlcScript.drain)
    is `pollm`, printed *)
 Theorem C10_script_polling : forall fuel c cl sv acc es c', pollm fuel c = (es, c') ->
@@ -89,3 +105,4 @@ Qed.
 Print Assumptions C10_any_chunking_stream.
 Print Assumptions C10_script_polling.
 Print Assumptions C10_any_chunking_one_frame.
+Print Assumptions C10_standard_stream_any_chunking.
